@@ -146,6 +146,23 @@ type listErr []int
 
 func (l listErr) Error() string { return fmt.Sprintf("list error %v", []int(l)) }
 
+// nilPtrErr / zeroCodeErr: error VALUES that are "empty" without being nil errors — a nil pointer of an error type
+// (`var e *MyErr; return e`: the classic typed-nil error, non-nil as an `error`) and the zero value of a scalar error
+// type (`type Code int`, Code(0)). A callback that returns one of them has FAILED like with any other non-nil error.
+// All nil *nilPtrErr are one value and all zeroCodeErr(0) are one value, so each is issued for exactly one number.
+type nilPtrErr struct{ msg string }
+
+func (e *nilPtrErr) Error() string { return "typed-nil error" }
+
+type zeroCodeErr int
+
+func (c zeroCodeErr) Error() string { return "code " + strconv.Itoa(int(c)) }
+
+const (
+	nilPtrErrN   = 15
+	zeroCodeErrN = 18
+)
+
 func userError(n int) error {
 	errMu.Lock()
 	defer errMu.Unlock()
@@ -153,6 +170,16 @@ func userError(n int) error {
 		return e
 	}
 	var e error
+	if n == nilPtrErrN {
+		e = (*nilPtrErr)(nil)
+		issued[n] = e
+		return e
+	}
+	if n == zeroCodeErrN {
+		e = zeroCodeErr(0)
+		issued[n] = e
+		return e
+	}
 	switch n % 3 {
 	case 0:
 		e = sentinelLocked(n)
